@@ -316,14 +316,17 @@ fn case_update_step<C: Ctx2, const MAX: usize>() {
 }
 /// `fix` = Some((pending bytes, input length)): the same step with a CONCRETE shape (contents, chaining value and counter stay symbolic)
 fn case_update_step_fix<C: Ctx2, const MAX: usize>(fix: Option<(usize, usize)>) {
-    let mut a = arb();
-    let mut data = Bytes::<MAX>::any();
-    if let Some((bl, ln)) = fix {
-        a.buflen = bl;
-        data.len = ln;
-    }
+    let a = arb();
+    let data = Bytes::<MAX>::any();
     let j: usize = any(); // "for every byte position": one symbolic position (see hash_fixedbuf.rs)
     assume(j < BB);
+    step_body::<C, MAX>(a, data, j, fix);
+}
+fn step_body<C: Ctx2, const MAX: usize>(a0: Arb, d0: Bytes<MAX>, j: usize, fix: Option<(usize, usize)>) {
+    let (a, data) = match fix {
+        Some((bl, ln)) => (Arb { h: a0.h, t: a0.t, buf: a0.buf, buflen: bl, outlen: a0.outlen }, Bytes::<MAX> { buf: d0.buf, len: ln }),
+        None => (a0, d0),
+    };
     let len = data.len;
     let (buf, buflen) = (a.buf, a.buflen);
     let f = fix.is_some();
@@ -565,14 +568,19 @@ pub(crate) fn c01_blake2s_new_keyed_bits() {
 }
 /// quick tier, ContextDyn: the update step at concrete shapes around every boundary (the symbolic-shape step on ContextDyn is thorough-only)
 fn update_shapes<C: Ctx2>() {
-    case_update_step_fix::<C, 130>(Some((0, 64)));
-    case_update_step_fix::<C, 130>(Some((0, 65)));
-    case_update_step_fix::<C, 130>(Some((1, 63)));
-    case_update_step_fix::<C, 130>(Some((64, 1)));
-    case_update_step_fix::<C, 130>(Some((64, 64)));
-    case_update_step_fix::<C, 130>(Some((5, 123)));
-    case_update_step_fix::<C, 130>(Some((0, 128)));
-    case_update_step_fix::<C, 130>(Some((0, 129)));
+    // all harness inputs are drawn first (the recorder stub draws its return values under Kani: the native replay stream must not interleave)
+    let a = arb();
+    let d = Bytes::<130>::any();
+    let j: usize = any();
+    assume(j < BB);
+    step_body::<C, 130>(Arb { h: a.h, t: a.t, buf: a.buf, buflen: a.buflen, outlen: a.outlen }, Bytes { buf: d.buf, len: d.len }, j, Some((0, 64)));
+    step_body::<C, 130>(Arb { h: a.h, t: a.t, buf: a.buf, buflen: a.buflen, outlen: a.outlen }, Bytes { buf: d.buf, len: d.len }, j, Some((0, 65)));
+    step_body::<C, 130>(Arb { h: a.h, t: a.t, buf: a.buf, buflen: a.buflen, outlen: a.outlen }, Bytes { buf: d.buf, len: d.len }, j, Some((1, 63)));
+    step_body::<C, 130>(Arb { h: a.h, t: a.t, buf: a.buf, buflen: a.buflen, outlen: a.outlen }, Bytes { buf: d.buf, len: d.len }, j, Some((64, 1)));
+    step_body::<C, 130>(Arb { h: a.h, t: a.t, buf: a.buf, buflen: a.buflen, outlen: a.outlen }, Bytes { buf: d.buf, len: d.len }, j, Some((64, 64)));
+    step_body::<C, 130>(Arb { h: a.h, t: a.t, buf: a.buf, buflen: a.buflen, outlen: a.outlen }, Bytes { buf: d.buf, len: d.len }, j, Some((5, 123)));
+    step_body::<C, 130>(Arb { h: a.h, t: a.t, buf: a.buf, buflen: a.buflen, outlen: a.outlen }, Bytes { buf: d.buf, len: d.len }, j, Some((0, 128)));
+    step_body::<C, 130>(Arb { h: a.h, t: a.t, buf: a.buf, buflen: a.buflen, outlen: a.outlen }, Bytes { buf: d.buf, len: d.len }, j, Some((0, 129)));
 }
 #[cfg_attr(kani, kani::proof)]
 #[cfg_attr(kani, kani::unwind(66))]
